@@ -21,6 +21,11 @@ def variants(df, rng):
     if len(parts) > 1:
         cat = pd.concat(parts)
         out.append(('concat of per-ceilometer frames', cat))
+        cat = pd.concat(parts, keys=[str(c) for c in df['ceilo'].unique()], names=['ceilo', None])
+        out.append(('concat of per-ceilometer frames with keys (two index levels, the first named ceilo)', cat))
+    # the index may carry a *name*, e.g. when a column was promoted to the index and kept: labels repeat and a level is named like a column
+    out.append(('index set from the dt column (column kept)', df.set_index('dt', drop=False)))
+    v = df.copy(); v.index = [i + 7 for i in range(n)]; v.index.name = rng.choice(['ceilo', 'height', 'type', 'row']); out.append(('named index', v))
     v = df.copy(); v['extra'] = np.arange(n); v['note'] = 'x'; out.append(('extra columns', v))
     v = df[['type', 'height', 'ceilo', 'dt']].copy(); out.append(('reordered columns', v))
     v = df.copy(); v['ceilo'] = v['ceilo'].astype(object); v['type'] = v['type'].astype(float); out.append(('object ceilo, float type', v))
@@ -48,6 +53,14 @@ def variants(df, rng):
 def check(k, seed):
     rng = random.Random(seed * 23 + k)
     df, desc = scene(k, seed)
+    if k % 4 == 1:
+        # an anomaly documented as a warning only: non-detections that carry a height (whatever is done about them must not
+        # depend on the index labels)
+        nd = list(df.index[df['type'] == 0])
+        if nd:
+            df = df.copy()
+            df.loc[rng.sample(nd, max(1, len(nd) // 3)), 'height'] = rng.choice([0.0, 1400.0])
+            desc = dict(desc, anomaly='non-detections carrying a height')
     prms = prms_variant(k, seed)
     fails = []
     try:
@@ -61,7 +74,7 @@ def check(k, seed):
         except Exception as e:
             fails.append(f'{name}: {type(e).__name__}: {str(e)[:80]}')
             continue
-        if name == 'concat of per-ceilometer frames':
+        if name.startswith('concat of per-ceilometer frames'):
             # row order changed as well: compare with the plainly indexed frame in the same row order
             plain = v.reset_index(drop=True)
             d_plain = digest_chunk(run_quiet(plain, prms))
@@ -91,7 +104,7 @@ def bounded(run):
         for f in fails[:3]:
             failures.append({'obligation': 'bounded.C10.layout_independent', 'scene': desc, 'prms': prms, 'what': f,
                              'rerun': f'cd /verif && PYTHONPATH=${{PYVC_REPO_SRC:-/repo/src}}:/verif .venv312/bin/python -m bounded.c10 {k} {run.seed}'})
-    return {'label': 'B (bounded, never counted as proved)', 'bound': f'{n} scenes x 10 relabellings / layouts / dtype variants, seed {run.seed}',
+    return {'label': 'B (bounded, never counted as proved)', 'bound': f'{n} scenes x 17 relabellings / layouts / dtype variants, seed {run.seed}',
             'scenes': n, 'distinct_scene_shapes': len(shapes), 'scenes_crashing_in_pipeline (see C08)': crashed,
             'failures': failures[:5], 'n_failures': len(failures)}
 
